@@ -10,7 +10,7 @@ from vlib import clist, cpair, log
 
 PID = "C15"
 PROPS = "C15_Props.v"
-TARGETS = ["C15_Props.vo", "C15_Check.vo"]
+TARGETS = ["C15_Props.vo", "C15_Check.vo", "C15_Ring.vo"]
 PKG = "component/outbound"
 HARNESS = ["outbound/common_test.go", "outbound/c15_test.go"]
 EXPORT = ("component/outbound/dialer/zz_verif_c15_export.go", "harness/dialer/c15_export.go")
@@ -309,6 +309,57 @@ def gen_foreign():
                         cases.append({"n": n, "offs": [0] * n, "tol": 0, "p0": {"p": pol, "i": 0}, "ops": ops, "foreign": True})
                         k += 1
     return cases
+
+
+def gen_ring(rng, count):
+    """sample sequences for a bare LatenciesN: lengths 0..40, ring sizes 1, 2, 3, 10, unequal samples across the wrap"""
+    cases = []
+    for i in range(count):
+        n = [10, 10, 10, 1, 2, 3][i % 6]
+        ln = [0, 1, n - 1, n, n + 1, 2 * n, 2 * n + 1, 25, 40][i % 9] if i < 27 else rng.randint(0, 40)
+        ln = max(0, min(ln, 40))
+        kind = i % 3
+        if kind == 0:
+            samples = [(j + 1) * 7 * MS for j in range(ln)]                   # strictly increasing: every window differs
+        elif kind == 1:
+            samples = [rng.choice([1, 20 * MS, 50 * MS, 333 * MS, 10000 * MS]) for _ in range(ln)]
+        else:
+            samples = [rng.randint(0, 2000) * MS + rng.randint(0, 999) for _ in range(ln)]
+        cases.append({"n": 0, "offs": [], "tol": 0, "p0": {"p": "fixed", "i": 0}, "ops": [], "ring": {"n": n, "samples": samples}})
+    return cases
+
+
+def run_ring(sc, binary, cases):
+    """LatenciesN against the ring model and the last-N-samples spec; returns (list of (case, codes), error)"""
+    inp, outp = sc.path("c15_ring.in"), sc.path("c15_ring.out")
+    with open(inp, "w") as f:
+        for c in cases:
+            f.write(json.dumps(c) + "\n")
+    rc, so, se, dt = vlib.run_go_harness(binary, "TestVerifC15", inp, outp)
+    if rc != 0:
+        return None, "harness failed rc=%d: %s %s" % (rc, so[-1500:], se[-1500:])
+    results = [json.loads(l) for l in open(outp)]
+    terms = []
+    for c, r in zip(cases, results):
+        obs = clist(["(%s, %s)" % ("Some %d" % o[1] if o[0] else "None", "Some %d" % o[3] if o[2] else "None") for o in r["ring"]])
+        terms.append("ring_check %d%%nat %s %s" % (c["ring"]["n"], clist([str(x) for x in c["ring"]["samples"]]), obs))
+    text = ("From Coq Require Import List ZArith Bool Arith NArith.\nFrom Dae Require Import C15_Ring.\n"
+            "Import ListNotations.\nOpen Scope Z_scope.\n"
+            "Definition R := Eval vm_compute in [\n" + ";\n".join(terms) + "\n].\nPrint R.\n")
+    ok, outtxt = vlib.coq_eval("C15_ring_%d" % os.getpid(), text)
+    if not ok:
+        return None, "coq evaluation failed: " + outtxt[-2000:]
+    m = re.search(r"R\s*=\s*(.*?)\n\s*:\s*list", outtxt, re.S)
+    body = re.sub(r"\s+|%N", "", m.group(1))
+    per = re.findall(r"\[((?:\(\d+,\d+\);?)*)\]", body[1:-1])
+    if len(per) != len(cases):
+        return None, "cannot parse coq output for the ring cases"
+    bad = []
+    for c, p_ in zip(cases, per):
+        codes = [(int(a), int(b)) for a, b in re.findall(r"\((\d+),(\d+)\)", p_)]
+        if codes:
+            bad.append((c, codes))
+    return bad, None
 
 
 # ------------------------------------------------------------------ Coq terms
@@ -681,6 +732,24 @@ def main(argv):
             for n in sorted(os.listdir(cdir)):
                 if n.endswith(".json"):
                     corpus.append(json.load(open(os.path.join(cdir, n))))
+        # LatenciesN (the avg10 ring) on its own
+        ring_cases = gen_ring(rng, 60 if args.tier == "quick" else 600)
+        ring_bad, ring_err = run_ring(sc, binary, ring_cases)
+        if ring_err:
+            out.violation("ring_tie", {"correspondence": ring_err}, "LatenciesN correspondence could not be evaluated", no_failing_input=True)
+        elif ring_bad:
+            spec_bad = [(c, cd) for c, cd in ring_bad if any(code == 2 for _, code in cd)]
+            if spec_bad:
+                c, cd = min(spec_bad, key=lambda x: len(x[0]["ring"]["samples"]))
+                k = min(st for st, code in cd if code == 2)
+                small = dict(c, ring=dict(c["ring"], samples=c["ring"]["samples"][:k]))
+                out.violation("ring", {"case": small, "errors": cd, "failing_sequences": len(spec_bad),
+                                       "how": "feed `case` to TestVerifC15: LatenciesN(n) after the k-th AppendLatency; LastLatency/AvgLatency differ from the last sample / the truncated mean of the last min(k, n) samples (code 2), step k = number of appends"},
+                              "LatenciesN average or last sample is not that of the last min(len, N) samples (%d failing sequences)" % len(spec_bad),
+                              matchers=["latencies-n-ring"])
+            else:
+                out.violation("ring_tie", {"cases": [x[0] for x in ring_bad[:2]], "errors": ring_bad[0][1]},
+                              "ring model and LatenciesN disagree without a spec failure", no_failing_input=True)
         boundary = gen_boundary() + gen_switch_direct() + gen_switch_hooked() + gen_foreign()
         cases = corpus + boundary + [gen_case(rng, big=(i % 5 == 0)) for i in range(n_cases)]
         all_err = {}
@@ -760,7 +829,7 @@ def main(argv):
             out.violation("proof", {"proof": pinfo["failed"]}, "proof stage failed", no_failing_input=True)
         nontrivial = len(set(s for s in sigs if int(s[0]) > 0 and (int(s[1]) > 0 or int(s[2]) > 0 or int(s[4]) > 0)))
         first_gen = len(corpus) + len(boundary)
-        cov.update(evaluations=n_eval, distinct_nontrivial=nontrivial, distinct_signatures=len(set(sigs)),
+        cov.update(ring_sequences=len(ring_cases), ring_failing=len(ring_bad or []), evaluations=n_eval + len(ring_cases), distinct_nontrivial=nontrivial, distinct_signatures=len(set(sigs)),
                    rule="fixed families on every run: policy-switch states by hand (every ordered pair published/per-set policy x measured none/one/all x health pattern, reads via Select/GetMinLatency/GetRandExcluded under the old published policy, notifications in the window), policy switches with operations run at a yield point inside DialerGroup.SetSelectionPolicy (overlay-inserted, source-shape checked), notifications naming a non-member (raw model only); fixed boundary family (all 64 alive patterns over the six health domains x 1-3 nodes x random/min policy x every requested type x strict/non-strict x exclusion) + random histories over 1-6 nodes (offsets incl. negative and >= 1 h), tolerance in {0,1ns,30ms,100ms,1s,2h}, "
                         "latency levels on a grid with +-tolerance boundaries and ties, ops: probe success/forced death/probe failure/"
                         "direct set notification/silent sample/policy switch (6 policies, fixed index out of range)/selection "
